@@ -78,7 +78,8 @@ func (e *LogfmtExtractor) extractAll(line string, set LabelSet) error {
 	for d.ScanRecord() {
 		for d.ScanKeyval() {
 			// TODO(tdakkota): try string interning
-			set.Set(logql.Label(d.Key()), pcommon.NewValueStr(string(d.Value())))
+			// Keys become label names the same way JSON keys do (request-id -> request_id).
+			set.Set(logql.Label(otelstorage.KeyToLabel(string(d.Key()))), pcommon.NewValueStr(string(d.Value())))
 		}
 	}
 
